@@ -105,6 +105,14 @@ def check_xpath(rec, text, tree, core=False):
         rec.violation("C17|xpath|recompile-differs", case, f"compiling the same text again gave {[o[0] for o in outs]} / different matching behaviour")
     if core and outs[0][0] != "ok":
         rec.violation("C17|xpath|grammar-text-rejected", case, "a text produced by the documented grammar was rejected")
+    # the verdict itself: accepted exactly when the documented grammar derives the text (recognizer written from the grammar,
+    # shared with the legacy check - both modules document the same grammar)
+    from .c20 import legacy_well_formed
+
+    wf = legacy_well_formed(text, {"QL", "QP", "ASTNode"})
+    if (outs[0][0] == "ok") is not wf:
+        rec.violation("C17|xpath|" + ("ill-formed-accepted" if not wf else "well-formed-rejected"), case,
+                      f"ASTXpath({text!r}) was {'accepted' if outs[0][0] == 'ok' else 'rejected'}; the documented grammar {'derives' if wf else 'does not derive'} the text")
     rec.outcome(f"xpath:{outs[0][0]}")
     return outs[0]
 
